@@ -68,6 +68,8 @@ class NativeKeyBinding(metaclass=ABCMeta):
     def validate_dict_key_use_operations(cls, dict_key: DictKey) -> None:
         if "use" in dict_key and "key_ops" in dict_key:
             _use: str = dict_key["use"]  # type: ignore
+            if not isinstance(_use, str) or _use not in cls.use_key_ops_registry:
+                raise ValueError('"use" must be one of {}'.format(list(cls.use_key_ops_registry)))
             operations = cls.use_key_ops_registry[_use]
             for op in dict_key["key_ops"]:
                 if op not in operations:
